@@ -14,10 +14,10 @@ DEMO=$(git status --porcelain | awk '{print $2}' | grep 'zz_seed_demo_test.go' |
 PKG=./$(dirname "${DEMO:-.}")
 echo "== build"; go build ./... 2>&1 | tail -3
 echo "== demo WITH change (should FAIL)"; go test -vet=off -count=1 -run TestSeedDemo $PKG 2>&1 | tail -3; WITH=${PIPESTATUS[0]}
-git stash push -q -- $(git diff --name-only -- . ':!*_test.go' ':!SEED_NOTES.md')
+git apply -R $OUT/patch.diff
 echo "== demo WITHOUT change (should PASS)"; go test -vet=off -count=1 -run TestSeedDemo $PKG 2>&1 | tail -3; WITHOUT=${PIPESTATUS[0]}
-git stash pop -q
-echo "== suite with change"; go test -vet=off -count=1 ./... 2>&1 | grep -v "^ok\|no test files" | tail -8
+git apply $OUT/patch.diff
+echo "== suite with change"; go test -p 2 -vet=off -count=1 ./... 2>&1 | grep -v "^ok\|no test files" | tail -8
 echo "with=$WITH without=$WITHOUT"
 cd /repo && git apply $OUT/patch.diff || { echo "patch does not apply to /repo"; exit 3; }
 cd /verif
